@@ -546,11 +546,11 @@ theorem advance_spec (c : Cfg) (ex : Expiry) (s : State) (t x : Nat) (hw : WF c 
         have hw1 : WF c (setPC { s with conns := bump s.conns h (-1) } t (.failed h)) := by
           rw [← hs1]; exact wf_stepD c s _ hw
         simp only [hs1, beq_self_eq_true, if_true, Bool.true_and]
-        have hs2 : stepD c (setPC { s with conns := bump s.conns h (-1) } t (.failed h)) (.countFail t false) =
+        have hs2 : stepD c (setPC { s with conns := bump s.conns h (-1) } t (.failed h)) (.countFail t c.retry) =
             setPC (if c.countFails then
               { (setPC { s with conns := bump s.conns h (-1) } t (.failed h)) with
                 fails := bump s.fails h 1, timers := bumpN s.timers h }
-              else setPC { s with conns := bump s.conns h (-1) } t (.failed h)) t .done := by
+              else setPC { s with conns := bump s.conns h (-1) } t (.failed h)) t (if c.retry then .idle else .done) := by
           unfold stepD
           simp only [step, hpc1]
           rfl
